@@ -31,6 +31,7 @@ From Coq Require Import List NArith ZArith Arith Lia.
 From Iodine Require Import Base Generated.SrcConsts Md5 Login LoginProofs LoginGlue LoginGlueProofs.
 From Iodine Require Server ServerFrame ServerAuthFinal.
 From Iodine Require Import Startup StartupProofs.
+From Iodine Require Handshake HandshakeProofs DnsMsg.
 Import ListNotations.
 Local Open Scope N_scope.
 
@@ -330,3 +331,26 @@ Proof.
   cbv zeta. split; [vm_compute; discriminate|].
   repeat match goal with |- _ /\ _ => split end; vm_compute; reflexivity.
 Qed.
+
+(* ------------------------------------------------------------------------------------------ *)
+(* C19_handshake_challenge_provenance: the glue statements above are about one version reply handed to
+   the client's expression.  This one is about handshake_version as the sequencing model runs it
+   (Handshake.v, compared with the real function on scripted replies in checks/c06.py): for EVERY script
+   of datagrams and time-outs, if the step returns 0 then the challenge and the user id it stored are
+   exactly what cli_version reads from a datagram of the script that fitted one of its version queries
+   (DNS id of that query, name starting with v or V) -- not from an unfitting datagram, not from an
+   earlier or a later one, and nothing else in the step writes them.  client_handshake hands this
+   stored challenge to handshake_login's digest and to the raw login (Handshake.hs_full). *)
+Theorem C19_handshake_challenge_provenance :
+  forall n s l,
+    fst (fst (Handshake.attempts n Handshake.version_body (Handshake.ret 1%Z) s l)) = 0%Z ->
+    exists m d cid,
+      In (Handshake.ID m d) l /\
+      let d' := Handshake.subst m cid 118 d in
+      let x := DnsMsg.client_extract Handshake.cap_full d' (length d') in
+      Handshake.fits cid 118 86 x = true /\
+      cli_version (firstn (Z.to_nat (DnsMsg.da_rv x)) (DnsMsg.da_out x)) =
+        Some (Handshake.h_seed (snd (fst (Handshake.attempts n Handshake.version_body (Handshake.ret 1%Z) s l))),
+              Handshake.h_uid (snd (fst (Handshake.attempts n Handshake.version_body (Handshake.ret 1%Z) s l)))).
+Proof. exact HandshakeProofs.version_sound. Qed.
+Print Assumptions C19_handshake_challenge_provenance.
